@@ -260,6 +260,27 @@ theorem kdeRow_perm (K : α → α) (h : α) (grid xs ys : List α) (hp : xs.Per
   intro g _
   exact kde_perm K h xs ys hp g
 
+/-- **Pooling**: the density of a concatenated sequence is the length-weighted mean of the densities of
+its parts, `(n + m) · kde(xs ++ ys) = n · kde(xs) + m · kde(ys)` — every event enters with the same
+weight wherever it stands (any kernel, non-zero bandwidth, non-empty parts). -/
+theorem kde_append (K : α → α) (h : α) (hh : h ≠ 0) (xs ys : List α) (hx : xs ≠ []) (hy : ys ≠ []) (g : α) :
+    ((xs.length + ys.length : Nat) : α) * kde K h (xs ++ ys) g =
+      (xs.length : α) * kde K h xs g + (ys.length : α) * kde K h ys g := by
+  have hn : (xs.length : α) ≠ 0 := Nat.cast_ne_zero.mpr (by simpa using hx)
+  have hm : (ys.length : α) ≠ 0 := Nat.cast_ne_zero.mpr (by simpa using hy)
+  have hnm : (xs.length : α) + (ys.length : α) ≠ 0 := by
+    have : ((xs.length + ys.length : Nat) : α) ≠ 0 :=
+      Nat.cast_ne_zero.mpr (by have : xs.length ≠ 0 := by simpa using hx
+                               omega)
+    simpa using this
+  unfold kde
+  rw [foldr_add_eq_sum, foldr_add_eq_sum, foldr_add_eq_sum]
+  simp only [List.map_append, List.sum_append, List.length_append, Nat.cast_add]
+  have key : ∀ (a S : α), a ≠ 0 → a * (S / (a * h)) = S / h := by
+    intro a S ha
+    rw [← mul_div_assoc, mul_div_mul_left _ _ ha]
+  rw [key _ _ hnm, key _ _ hn, key _ _ hm, add_div]
+
 /-- for a non-negative kernel and a positive bandwidth the densities are non-negative -/
 theorem kde_nonneg (K : α → α) (hK : ∀ u, 0 ≤ K u) (h : α) (hh : 0 < h) (xs : List α) (g : α) :
     0 ≤ kde K h xs g := by
@@ -299,6 +320,11 @@ example :
 example : kde (α := Rat) (fun u => if -1 < u ∧ u < 1 then 1/2 else 0) 2 ([1, 2] ++ [5]) 3 =
     kde (α := Rat) (fun u => if -1 < u ∧ u < 1 then 1/2 else 0) 2 ([5] ++ [1, 2]) 3 :=
   kde_perm _ _ _ _ List.perm_append_comm _
+
+example : ((2 + 1 : Nat) : Rat) * kde (α := Rat) (fun u => if -1 < u ∧ u < 1 then 1/2 else 0) 2 ([1, 2] ++ [5]) 3 =
+    ((2 : Nat) : Rat) * kde (fun u => if -1 < u ∧ u < 1 then 1/2 else 0) 2 [1, 2] 3 +
+    ((1 : Nat) : Rat) * kde (fun u => if -1 < u ∧ u < 1 then 1/2 else 0) 2 [5] 3 :=
+  kde_append _ 2 (by norm_num) [1, 2] [5] (by simp) (by simp) 3
 
 example : 0 ≤ kde (α := Rat) (fun u => if -1 < u ∧ u < 1 then 1/2 else 0) 2 [1, 2, 5] 3 :=
   kde_nonneg _ (fun u => by split <;> norm_num) 2 (by norm_num) _ _
